@@ -235,6 +235,10 @@ def inline_cases(tier):
         for size in sizes:
             cases.append({"what": "download", "sync": sync, "sizes": [size], "frame": 16384})
         cases.append({"what": "download", "sync": sync, "sizes": [6 * MiB, 6 * MiB, 6 * MiB], "frame": 16384})
+        # padding counts against the flow-control windows: 66,500 frames of 1 data octet + 255 padding octets use up more than the client's
+        # up-front credit (2^24 + 65,535) although the body is tiny; the peer only sends what it has credit for
+        cases.append({"what": "download", "sync": sync, "sizes": [66500], "frame": 1, "pad": 255})
+        cases.append({"what": "download", "sync": sync, "sizes": [3 * MiB, 3 * MiB], "frame": 8192, "pad": 200})
         if tier == "thorough":
             cases.append({"what": "download", "sync": sync, "sizes": [9 * MiB] * 5, "frame": 16384})
             cases.append({"what": "upload", "sync": sync, "size": 2 * MiB + 1, "chunks": [500000], "wu_mode": "lazy", "wu_inc": 0, "settings": {"3": 100}})
@@ -270,7 +274,7 @@ def execute_inline(case) -> Outcome:
         tags = ["upload", "wu-" + case["wu_mode"]]
         nontrivial = case["size"] > (case["settings"].get("4", W))
         return Outcome(vio[:4], tags, nontrivial, info={"ops": len(world.trace)}, metrics={"bytes_uploaded": case["size"]})
-    plans = {f"g{i}": {"body_len": n, "h2_frames": [case["frame"]]} for i, n in enumerate(case["sizes"])}
+    plans = {f"g{i}": {"body_len": n, "h2_frames": [case["frame"]], "h2_pad": case.get("pad", 0)} for i, n in enumerate(case["sizes"])}
     pool_cfg, cfg, scheme = topo("direct-h2", plans=plans)
     world = World(peer_factory=cfg.peer_factory)
     pool = build_pool(world, pool_cfg, sync=case["sync"])
@@ -286,7 +290,8 @@ def execute_inline(case) -> Outcome:
             await pool.aclose()
 
         run_async(go())
-    desc = f"[{'sync' if case['sync'] else 'async'}] downloads of {case['sizes']} bytes on one connection"
+    desc = (f"[{'sync' if case['sync'] else 'async'}] downloads of {case['sizes']} bytes on one connection"
+            + (f" in DATA frames of {case['frame']} octets + {case['pad']} padding octets" if case.get("pad") else ""))
     for i, out in enumerate(outs):
         if out["exc"] is not None:
             kind = "download-stalled" if out["exc"]["type"] == "HANG" else "transfer-failed"
